@@ -74,6 +74,14 @@ type Beginner interface {
 	Begin(sc Schedule, rep int)
 }
 
+// Eventer is implemented by groups that observe more than calls and returns: TakeEvents is called when the calls of
+// a history have returned (after Settle) and returns the events to append to the history - a panic of Vouch's code
+// recovered on a job's goroutine (Crash), a goroutine that never finishes (Hung): events that no action of the
+// specification allows; other names are coverage information.
+type Eventer interface {
+	TakeEvents() []map[string]interface{}
+}
+
 // Group is the binding of one group of operations to a real service.
 type Group interface {
 	// Reset establishes the start state of a history (fresh or re-established service).
@@ -227,6 +235,13 @@ func Run(t *testing.T, groups map[string]func(ctx context.Context) Group) {
 				// calls that never return stay pending in the history; the service is abandoned
 				tr.Emit(map[string]interface{}{"sc": sc.Sc, "h": hist, "ev": "Stuck", "g": group})
 				grp = mk(ctx)
+				continue
+			}
+			if e, ok := grp.(Eventer); ok {
+				for _, ev := range e.TakeEvents() {
+					ev["sc"], ev["h"], ev["g"] = sc.Sc, hist, group
+					tr.Emit(ev)
+				}
 			}
 		}
 		if txt := races.New(); txt != "" {
